@@ -187,7 +187,7 @@ class QuadricTensor(ProjectiveTensor, ABC):
         # b vanishes for a double line/plane (a matrix of rank 1), dividing its rounding errors by the square root of
         # a rounding error would make them arbitrarily large
         scale = np.max(np.abs(self.array), axis=(-2, -1)) ** 2
-        nonzero = np.abs(b_ii) > EQ_TOL_ABS * scale
+        nonzero = np.abs(b_ii) > 1e-12 * scale
         beta = np.where(nonzero, csqrt(-b_ii), 1)
         p = np.where(nonzero[..., None], -b[(*indices, slice(None), i)] / beta[..., None], 0)
 
